@@ -131,6 +131,7 @@ func (router *Router) serve() {
 			}
 
 			// Inhibit sending for the given time.
+			verifTrace("busy-wait")
 			router.sendMu.Lock()
 
 			waitTime := msg.WaitTime + trandom
